@@ -342,8 +342,15 @@ Definition ai_run (names : list name) (o : nat -> ai_outcome) : outcome (list na
    [first], [last]: the two outcomes in completion order. *)
 Definition has_addr (oc : ai_outcome) : bool := (ao_status oc =? ARES_SUCCESS) && ao_addr oc.
 
-Definition host_callback2 (names : list name) (next : nat) (nodata_cnt : nat) (first last : ai_outcome)
+(* [fixed] selects the code with fixes/C12-gai-unspec-nodata.patch (true): the completion that
+   leaves the other query outstanding remembers a no-data answer (nodata_cnt++); the pinned code
+   (false) looks at the no-data of the LAST completion only *)
+Definition host_callback2 (fixed : bool) (names : list name) (next : nat) (nodata_cnt0 : nat) (first last : ai_outcome)
   : outcome (ai_step * nat) :=
+  let nodata_cnt :=
+    if fixed && ((ao_status first =? ARES_ENODATA) ||
+                 ((ao_status first =? ARES_SUCCESS) && negb (ao_addr first)))
+    then S nodata_cnt0 else nodata_cnt0 in
   let status := ao_status last in
   let addinfostatus :=
     if status =? ARES_SUCCESS then (if ao_addr last then ARES_SUCCESS else ARES_ENODATA)
@@ -367,27 +374,27 @@ Definition host_callback2 (names : list name) (next : nat) (nodata_cnt : nat) (f
     end
   else Ok (AiEnd status, nodata_cnt).
 
-Fixpoint ai2_loop (fuel : nat) (names : list name) (o : nat -> ai_outcome * ai_outcome) (next nodata_cnt : nat)
+Fixpoint ai2_loop (fixed : bool) (fuel : nat) (names : list name) (o : nat -> ai_outcome * ai_outcome) (next nodata_cnt : nat)
   (sent : list name) : outcome (list name * Z) :=
   match fuel with
   | O => Err OutOfFuel
   | S f =>
-    do r <- host_callback2 names next nodata_cnt (fst (o (pred next))) (snd (o (pred next)));
+    do r <- host_callback2 fixed names next nodata_cnt (fst (o (pred next))) (snd (o (pred next)));
     match fst r with
     | AiEnd s => Ok (rev sent, s)
     | AiNext st =>
       match nth_error names next with
       | None => Ok (rev sent, st)
-      | Some n => ai2_loop f names o (S next) (snd r) (n :: sent)
+      | Some n => ai2_loop fixed f names o (S next) (snd r) (n :: sent)
       end
     end
   end.
 
 (* the candidates for which the pair of queries was sent, and the final status *)
-Definition ai2_run (names : list name) (o : nat -> ai_outcome * ai_outcome) : outcome (list name * Z) :=
+Definition ai2_run (fixed : bool) (names : list name) (o : nat -> ai_outcome * ai_outcome) : outcome (list name * Z) :=
   match names with
   | [] => Ok ([], ARES_ECONNREFUSED)
-  | n :: _ => ai2_loop (length names) names o 1 0 [n]
+  | n :: _ => ai2_loop fixed (length names) names o 1 0 [n]
   end.
 
 (* ------------------------------------------------------------------------------------ *)
@@ -458,10 +465,28 @@ Definition ai_status (oc : ai_outcome) : Z :=
   if ao_status oc =? ARES_SUCCESS then (if ao_addr oc then ARES_SUCCESS else ARES_ENODATA)
   else ao_status oc.
 
-(* the status of a candidate that was looked up with two queries: data if either family gave
-   addresses, otherwise the status of the query that completed last (a cancellation of the last
-   one wins) *)
-Definition ai2_combine (first last : ai_outcome) : ai_outcome :=
+(* The status of a candidate that was looked up with two queries (A and AAAA), [first] and
+   [last] in completion order: data if either family gave addresses; a cancellation of the
+   last one wins; otherwise the status of the query that completed last - except that a no-data
+   answer of the first one is remembered when the last one is soft (not found, or
+   SERVFAIL/REFUSED for a single label [single]).  A hard error of the query that completes
+   FIRST is not looked at (open finding: the result depends on the arrival order). *)
+Definition first_nodata (oc : ai_outcome) : bool := ai_status oc =? ARES_ENODATA.
+
+Definition ai2_combine (single : bool) (first last : ai_outcome) : ai_outcome :=
+  if (ao_status last =? ARES_EDESTRUCTION) || (ao_status last =? ARES_ECANCELLED) then last
+  else if has_addr first || has_addr last then {| ao_status := ARES_SUCCESS; ao_addr := true |}
+  else if first_nodata first &&
+          ((ao_status last =? ARES_ENOTFOUND) ||
+           (((ao_status last =? ARES_ESERVFAIL) || (ao_status last =? ARES_EREFUSED)) && single))
+       then {| ao_status := ARES_ENODATA; ao_addr := false |}
+  else last.
+
+(* the pinned code forgets the no-data answer of the first completion *)
+Definition ai2_combine_pinned (first last : ai_outcome) : ai_outcome :=
   if (ao_status last =? ARES_EDESTRUCTION) || (ao_status last =? ARES_ECANCELLED) then last
   else if has_addr first || has_addr last then {| ao_status := ARES_SUCCESS; ao_addr := true |}
   else last.
+
+Definition cand_single (names : list name) (i : nat) : bool :=
+  match nth_error names i with Some n => single_label n | None => false end.
